@@ -184,6 +184,9 @@ def _group(c):
         except Exception as e:
             return 'BycycleGroup.fit raised %s: %s' % (type(e).__name__, str(e)[:80])
         if len(bg.models) != shp[0] or len(bg.df_features) != shp[0]: return 'fit %d: models / df_features do not have one entry per signal' % k
+        if len(bg) != shp[0] or [id(m) for m in bg] != [id(m) for m in bg.models]: return 'fit %d: len() / iteration of the group do not run over its models' % k
+        if len(shp) == 2 and any(len(r) != shp[1] for r in list(bg.models) + list(bg.df_features)): return 'fit %d: a row of models / df_features does not have one entry per signal' % k
+        if np.shape(bg.sigs) != tuple(shp) + (500,) or not np.array_equal(bg.sigs, sigs): return 'fit %d: the group does not hold the array it was fitted on' % k
         for idx in np.ndindex(*shp):
             m = bg.models[idx[0]] if len(shp) == 1 else bg.models[idx[0]][idx[1]]
             t = bg.df_features[idx[0]] if len(shp) == 1 else bg.df_features[idx[0]][idx[1]]
